@@ -5,6 +5,7 @@ package sarama
 
 import (
 	"fmt"
+	"runtime"
 	"sync"
 )
 
@@ -69,8 +70,12 @@ func VerifStickyPlan(members map[string]ConsumerGroupMemberMetadata, topics map[
 // what was reported when Plan does not return).
 func VerifStickyPlanInto(tr *VerifStickyTrace, members map[string]ConsumerGroupMemberMetadata, topics map[string][]int32) (plan BalanceStrategyPlan, err error, panicked string) {
 	tr.Other = map[string]int{}
+	self := verifGoroutineID()
 	tpOf := func(a []interface{}) VerifTP { return VerifTP{a[0].(string), a[1].(int32)} }
 	VerifSetObserver(func(kind string, a ...interface{}) {
+		if verifGoroutineID() != self {
+			return // a Plan call abandoned by the watchdog is still running on another goroutine
+		}
 		tr.Mu.Lock()
 		defer tr.Mu.Unlock()
 		tr.Events++
@@ -109,4 +114,18 @@ func VerifStickyPlanInto(tr *VerifStickyTrace, members map[string]ConsumerGroupM
 	s := &stickyBalanceStrategy{}
 	plan, err = s.Plan(members, topics)
 	return
+}
+
+// verifGoroutineID parses the id out of the first line of the current goroutine's stack ("goroutine 12 [running]:").
+func verifGoroutineID() uint64 {
+	var buf [40]byte
+	n := runtime.Stack(buf[:], false)
+	var id uint64
+	for _, c := range buf[len("goroutine "):n] {
+		if c < '0' || c > '9' {
+			break
+		}
+		id = id*10 + uint64(c-'0')
+	}
+	return id
 }
